@@ -2,6 +2,7 @@
 from __future__ import annotations
 
 import ast
+import copy
 import inspect
 from fractions import Fraction
 
@@ -249,7 +250,27 @@ class Interp(Engine):
         return tuple(out)
 
     def ev_List(self, n, fr):
-        return PList(list(self.ev_Tuple(n, fr)))
+        if not any(isinstance(e, ast.Starred) for e in n.elts):
+            return PList(list(self.ev_Tuple(n, fr)))
+        vals = [(isinstance(e, ast.Starred), self.ev(e.value if isinstance(e, ast.Starred) else e, fr)) for e in n.elts]
+        try:
+            out = []
+            for star, v in vals:
+                if star:
+                    out.extend(self.iterate_concrete(v))
+                else:
+                    out.append(v)
+            return PList(out)
+        except Unsupported:
+            pass
+        # [*a, x, *b] with a sequence of symbolic length: list(a), then .append(x) / .extend(b) - the display's own meaning
+        acc = None
+        for star, v in vals:
+            if acc is None:
+                acc = self.call(list, [v], {}) if star else PList([v])
+            else:
+                self.call(self.models.method_of(self, acc, "extend" if star else "append"), [v], {})
+        return acc
 
     def ev_Set(self, n, fr):
         return set(self.ev_Tuple(n, fr))
@@ -636,8 +657,25 @@ class Interp(Engine):
 
     # -------------------------------------------------------------- statements
     def exec_block(self, stmts, fr):
+        prev = None
         for s in stmts:
+            if isinstance(s, ast.For):
+                fused = _fuse_accumulation_loop(prev, s)
+                if fused is not None:
+                    # `acc = []` directly followed by a loop whose body only appends to acc (or `d = {}` / `d[k] = v`) is the
+                    # comprehension `acc = [e for x in it]`: used when the loop itself cannot be executed (symbolic length, no invariant)
+                    try:
+                        self.exec(s, fr)
+                    except Unsupported as e:
+                        if "has no invariant" not in str(e):
+                            raise
+                        self.exec(fused, fr)
+                        for nm in fused._fused_temps:  # the comprehension binds neither the loop target nor the temporaries: a later read is refused, never answered wrongly
+                            fr.vars.pop(nm, None)
+                    prev = s
+                    continue
             self.exec(s, fr)
+            prev = s
 
     def exec(self, s, fr):
         self.cur_frame = fr
@@ -823,7 +861,12 @@ class Interp(Engine):
 
     def ex_FunctionDef(self, s, fr):
         key = (fr.func.key if fr.func else "?") + ".<locals>." + s.name
-        fr.store(s.name, Func(s, fr, fr.globs, key))
+        f = Func(s, fr, fr.globs, key)
+        # a decorated NESTED def: the decorator expressions are evaluated and applied, innermost first, as CPython does; each needs a
+        # model (an unmodelled decorator is Unsupported, never silently dropped).  Module / class level defs keep the rules of extract.py.
+        for dec in reversed(s.decorator_list):
+            f = self.call(self.ev(dec, fr), [f], {})
+        fr.store(s.name, f)
 
     def ex_Nonlocal(self, s, fr):
         fr.nonlocals.update(s.names)
@@ -945,3 +988,83 @@ class Interp(Engine):
         from .loops import exec_for
 
         exec_for(self, s, fr)
+
+
+def _fuse_accumulation_loop(prev, loop):
+    """`acc = []` ; `for T in IT: [tmp = pure-expr]* ; [if C:] acc.append(E)`  ->  `acc = [E' for T in IT [if C']]`   (E', C': temporaries inlined)
+    `d = {}`  ; `for T in IT: [tmp = pure-expr]* ; d[K] = V`                ->  `d = {K': V' for T in IT}`
+    None when the pair of statements does not have exactly this shape (the rewrite is then not attempted)."""
+    if loop.orelse or not loop.body:
+        return None
+    body = list(loop.body)
+    # which container does the last statement of the body feed?
+    tail = body[-1].body[0] if (isinstance(body[-1], ast.If) and not body[-1].orelse and len(body[-1].body) == 1) else body[-1]
+    if (isinstance(tail, ast.Expr) and isinstance(tail.value, ast.Call) and isinstance(tail.value.func, ast.Attribute) and tail.value.func.attr == "append"
+            and isinstance(tail.value.func.value, ast.Name)):
+        acc, is_list, is_dict = tail.value.func.value.id, True, False
+    elif isinstance(tail, ast.Assign) and len(tail.targets) == 1 and isinstance(tail.targets[0], ast.Subscript) and isinstance(tail.targets[0].value, ast.Name):
+        acc, is_list, is_dict = tail.targets[0].value.id, False, True
+    else:
+        return None
+    fresh_init = False  # `acc = []` / `acc = {}` immediately before the loop: the pair is the comprehension itself
+    if isinstance(prev, ast.Assign) and len(prev.targets) == 1 and isinstance(prev.targets[0], ast.Name) and prev.targets[0].id == acc:
+        v = prev.value
+        if is_list:
+            fresh_init = (isinstance(v, ast.List) and not v.elts) or (isinstance(v, ast.Call) and isinstance(v.func, ast.Name) and v.func.id == "list" and not v.args and not v.keywords)
+        else:
+            fresh_init = (isinstance(v, ast.Dict) and not v.keys) or (isinstance(v, ast.Call) and isinstance(v.func, ast.Name) and v.func.id == "dict" and not v.args and not v.keywords)
+    temps = {}
+
+    class Inline(ast.NodeTransformer):
+        def visit_Name(self, n):
+            if isinstance(n.ctx, ast.Load) and n.id in temps:
+                return copy.deepcopy(temps[n.id])
+            return n
+
+    def uses(node, name):
+        return any(isinstance(x, ast.Name) and x.id == name for x in ast.walk(node))
+
+    def pure(e):  # temporaries are inlined (possibly several times): only call-free, side-effect-free expressions qualify
+        return not any(isinstance(x, (ast.Call, ast.NamedExpr, ast.Yield, ast.YieldFrom, ast.Await, ast.Lambda, ast.ListComp, ast.SetComp, ast.DictComp, ast.GeneratorExp)) for x in ast.walk(e))
+
+    tnames = {x.id for x in ast.walk(loop.target) if isinstance(x, ast.Name)}
+    if acc in tnames or uses(loop.iter, acc):
+        return None
+    while len(body) > 1:
+        st = body[0]
+        if not (isinstance(st, ast.Assign) and len(st.targets) == 1 and isinstance(st.targets[0], ast.Name) and pure(st.value)):
+            return None
+        nm = st.targets[0].id
+        if nm == acc or nm in tnames or nm in temps:
+            return None
+        temps[nm] = Inline().visit(copy.deepcopy(st.value))
+        body = body[1:]
+    last, cond = body[0], None
+    if isinstance(last, ast.If) and not last.orelse and len(last.body) == 1:
+        cond, last = last.test, last.body[0]
+    if is_list:
+        if not (isinstance(last, ast.Expr) and isinstance(last.value, ast.Call) and isinstance(last.value.func, ast.Attribute) and last.value.func.attr == "append"
+                and isinstance(last.value.func.value, ast.Name) and last.value.func.value.id == acc and len(last.value.args) == 1 and not last.value.keywords):
+            return None
+        elt = last.value.args[0]
+        if uses(elt, acc) or (cond is not None and uses(cond, acc)):
+            return None
+        gen = ast.comprehension(target=loop.target, iter=loop.iter, ifs=[Inline().visit(copy.deepcopy(cond))] if cond is not None else [], is_async=0)
+        new = ast.ListComp(elt=Inline().visit(copy.deepcopy(elt)), generators=[gen])
+    else:
+        if cond is not None or not (isinstance(last, ast.Assign) and len(last.targets) == 1 and isinstance(last.targets[0], ast.Subscript)
+                                    and isinstance(last.targets[0].value, ast.Name) and last.targets[0].value.id == acc):
+            return None
+        key, val = last.targets[0].slice, last.value
+        if uses(key, acc) or uses(val, acc):
+            return None
+        gen = ast.comprehension(target=loop.target, iter=loop.iter, ifs=[], is_async=0)
+        new = ast.DictComp(key=Inline().visit(copy.deepcopy(key)), value=Inline().visit(copy.deepcopy(val)), generators=[gen])
+    # the temporaries stay bound after the real loop; nothing after the loop may read them if the rewrite is to be exact
+    if fresh_init:
+        out = ast.Assign(targets=[ast.Name(id=acc, ctx=ast.Store())], value=new, lineno=loop.lineno, col_offset=loop.col_offset)
+    else:  # an existing container: repeated append / item assignment in iteration order = extend / update with the comprehension
+        call = ast.Call(func=ast.Attribute(value=ast.Name(id=acc, ctx=ast.Load()), attr="extend" if is_list else "update", ctx=ast.Load()), args=[new], keywords=[])
+        out = ast.Expr(value=call, lineno=loop.lineno, col_offset=loop.col_offset)
+    out._fused_temps = set(temps) | tnames
+    return ast.fix_missing_locations(out)
